@@ -9,6 +9,7 @@
   `ip6:<u128>`.  Strings arrive as `x<hex>` (so that the empty string is a token).
 -/
 import RotoV.Generated.C10Builtins
+import RotoV.Generated.C10VTable
 import Driver.Util
 
 namespace Driver.C10
@@ -154,6 +155,61 @@ def handleHL [Target] (args : List String) : String :=
     | _, _, _ => "bad-op"
   | _ => "bad-op"
 
+/-! ### lists of any element-type class created by compiled code
+    (`c10 <pw> el <size class> <needs_clone> <needs_drop> <op> <codes> <args…>`)
+
+Elements travel as codes (`lu:` token: equal iff same code).  The vtable such a list
+carries is the one `Lowerer::call_runtime` writes (Generated/C10VTable.lean): if a
+callback the operation reaches — as list.rs uses it — is a null word, the answer is
+`segv`; otherwise the result on the codes (index validation through the generated
+`list_get_lookup` / `bind_ErasedList_swap` at the given element size). -/
+
+open RotoV.VTableFill RotoV.Gen.C10VTable in
+def cbSegv (τ : ElemTy) (c : Callback) : Bool :=
+  let vt := lowered vtableFields lowerWrites τ
+  listUses.any fun (c', k) => c' == c && useOutcome vt c k == .segv
+
+open RotoV.VTableFill in
+def handleEL [Target] (pw : Nat) (args : List String) : String :=
+  match args with
+  | size :: nc :: nd :: op :: tok :: rest =>
+    match parseLU tok with
+    | none => "bad-op"
+    | some l =>
+      let sz := size.toNat!
+      let τ : ElemTy := ⟨sz != 0, nc == "1", nd == "1"⟩
+      let other : Option (List Nat) := match rest with | [m] => parseLU m | _ => none
+      let eqCalls : Nat := match op, rest with
+        | "contains", [x] => eqCallsFind l x.toNat!
+        | "index", [x] => eqCallsFind l x.toNat!
+        | "eq", [_] => (other.map (eqCallsEq l)).getD 0
+        | "ne", [_] => (other.map (eqCallsEq l)).getD 0
+        | "nested_index", [_] => (other.map (fun m => eqCallsEq l m + (if l == m then 0 else eqCallsEq m m))).getD 0
+        | _, _ => 0
+      let cloneCalls : Nat := match op, rest with
+        | "get", [i] => if i.toNat! < l.length then 1 else 0
+        | "concat", [_] => l.length + (other.map List.length).getD 0
+        | "codes", [] => l.length
+        | "push", [_] => l.length + 1
+        | "swap", [_, _] => l.length
+        | _, _ => 0
+      let dropCalls : Nat := match op with
+        | "nested_index" => l.length + (other.map List.length).getD 0
+        | "push" => l.length + 1
+        | _ => l.length
+      if (eqCalls > 0 && cbSegv τ .eq) || (cloneCalls > 0 && cbSegv τ .clone) || (dropCalls > 0 && cbSegv τ .drop) then "segv"
+      else
+        match op, rest with
+        | "capacity", [] => if sz == 0 then showNat (2 ^ pw - 1) else showNat (listCapacityAfter sz l.length)
+        | "codes", [] => showList showNat l
+        | "eq_alias", [] => showBool true   -- `Arc::ptr_eq` answers before any element is compared
+        | "concat", [_] => match other with | some m => showList showNat (l ++ m) | none => "bad-op"
+        | "eq", [_] => match other with | some m => showBool (l == m) | none => "bad-op"
+        | "ne", [_] => match other with | some m => showBool (l != m) | none => "bad-op"
+        | "nested_index", [_] => match other with | some m => showOpt showNat (some (if l == m then 0 else 1)) | none => "bad-op"
+        | _, _ => hlOps showNat (fun t => t.toNat?) sz l op rest
+  | _ => "bad-op"
+
 def handleT [Target] (args : List String) : String :=
   match args with
   | "hl" :: rest => handleHL rest
@@ -252,7 +308,11 @@ def handle (args : List String) : String :=
   match args with
   | pw :: rest =>
     match pw.toNat? with
-    | some n => let _ : Target := ⟨n⟩; handleT rest
+    | some n =>
+      let _ : Target := ⟨n⟩
+      match rest with
+      | "el" :: rest => handleEL n rest
+      | _ => handleT rest
     | none => "bad-op"
   | _ => "bad-op"
 
